@@ -25,6 +25,7 @@ import tempfile
 from . import tv, corpus_cpp
 
 CW = {'quick': 4, 'thorough': 5}
+FAR_APART = ('scalar_modes', 'nested_restore', 'call_from_integer_block_under_mode')
 OPTIONS = [dict(optimize=o, unbox=u, arrays=a) for o in (False, True) for u in ('STRICT', 'ALLOW', 'NEVER') for a in (True, False)]
 
 
@@ -39,8 +40,9 @@ def tasks(tier, seed):
             ts.append(dict(kind='prog', name='prog/%s/%s' % (p['name'], _shape_name(shape)), prog=p['name'], shape=[list(c) for c in shape], cost=2 + sum(c[1] if c[0] == 'list' else 1 for c in shape)))
             # operands far apart: with 4-bit half-integers every binary64 / binary32 operation of these programs is exact and the
             # hardware rounding mode never matters; the last real argument at 2^55 (2^26 for binary32 arguments) makes sums inexact
-            # (float_double_mix, early_return_under_mode: z3 leaves one 240-bit postcondition undecided within the 60 s limit; not claimed far apart)
-            if 'modes' in p['tags'] and p['name'] not in ('float_double_mix', 'early_return_under_mode') and sum(1 for c in shape if c[0] == 'real') >= 2:
+            # only the programs z3 decides robustly at this width (the others — mode_in_branch, entry_rtz, float_double_mix,
+            # early_return_under_mode — leave a 240-bit postcondition undecided under load; they are not claimed far apart)
+            if 'modes' in p['tags'] and p['name'] in FAR_APART and sum(1 for c in shape if c[0] == 'real') >= 2:
                 far = 26 if 'FP32' in p.get('argfmt', 'fp.FP64') else 55
                 last = max(i for i, c in enumerate(shape) if c[0] == 'real')
                 sh2 = [list(c) for c in shape]; sh2[last] = ['real', far]
@@ -242,7 +244,7 @@ def run_task(task):
     W = 112 if ('FP64' in p['src'] or 'D_RT' in p['src'] or 'FP64' in p.get('ctx', 'fp.FP64')) else 64       # binary64 significands need the wide vectors
     if any(c[0] == 'real' and len(c) > 1 for c in shape):
         W = 240 if W == 112 else 128       # operands far apart: products of the far operand need twice its exponent again
-    eng = explore(run, setup, W=W, bl_max=W - 8, max_paths=3000)
+    eng = explore(run, setup, W=W, bl_max=W - 8, max_paths=3000, timeout_ms=(240000 if W in (176,) or any(c[0] == 'real' and len(c) > 1 for c in shape) else 60000))
     for k, v in wit.items():
         eng.witness[k] = eng.witness.get(k, 0) + v
     cexs = list(cexs0)
